@@ -1,0 +1,30 @@
+// Copyright 2023 StreamNative, Inc.
+//
+// Licensed under the Apache License, Version 2.0 (the "License");
+// you may not use this file except in compliance with the License.
+// You may obtain a copy of the License at
+//
+//     http://www.apache.org/licenses/LICENSE-2.0
+//
+// Unless required by applicable law or agreed to in writing, software
+// distributed under the License is distributed on an "AS IS" BASIS,
+// WITHOUT WARRANTIES OR CONDITIONS OF ANY KIND, either express or implied.
+// See the License for the specific language governing permissions and
+// limitations under the License.
+
+//go:build verif
+
+package oxia
+
+// VerifWithMaxBatchSize sets the byte limit of a write batch. The limit exists in clientOptions
+// (maxBatchSize, default 128 KiB) but no public option sets it; the verification harness needs
+// small values to exercise the size split of write batches.
+func VerifWithMaxBatchSize(maxBatchSize int) ClientOption {
+	return clientOptionFunc(func(options clientOptions) (clientOptions, error) {
+		if maxBatchSize <= 0 {
+			return options, ErrInvalidOptionMaxBatchSize
+		}
+		options.maxBatchSize = maxBatchSize
+		return options, nil
+	})
+}
